@@ -73,3 +73,45 @@ Example C13_example :
   entries_spec m (firstn 6 db) = [(3, 6)] /\ entries_spec m (firstn 5 db) = [(3, 5)] /\
   entries_spec m (firstn 11 db) = [(3, 5); (7, 8); (10, 11)] /\ entries_spec m (firstn 2 db) = [].
 Proof. vm_compute. repeat split. Qed.
+
+(* ------------------------------------------------------------------ *)
+(* With the Pipeline model as the block stage (C03Inst.blocksH_pipe / blocksW_pipe) the two hypotheses above are theorems:
+   the composed block stage never raises (bres_of has no crash result: every exception of the third-party decoder is the
+   `None` answer of the oracle, which the model turns into the verdict Failed), and it reads only inside the entry's track
+   (Proofs/PipelineLocal.v).  So for the composed model: every cut offset terminates, and every intact entry wholly before
+   the cut whose track has the regular length is verified / repaired exactly as with the complete ecc file. *)
+From PFF Require Proofs.C03Inst Proofs.PipelineClean Proofs.PipelineLocal.
+
+Lemma bres_of_no_crash r : PipelineClean.bres_of r <> BCrash.
+Proof. unfold PipelineClean.bres_of. destruct (Pipeline.f_class r); discriminate. Qed.
+
+Theorem C13_terminates_pipe :
+  forall (algo : N) (mb : nat) hash hlen bdec (o : option byte) fast ms hdr (mu : nat -> nat -> nat)
+         marker delim ignore_size look intra window db c, c <= length db ->
+    run_h marker delim ignore_size look intra (C03Inst.blocksH_pipe algo mb hash hlen bdec o fast ms hdr) (firstn c db) <> Crash /\
+    run_w marker delim ignore_size look intra window (C03Inst.blocksW_pipe algo mb hash hlen bdec o fast mu) (firstn c db) <> Crash.
+Proof.
+  intros. apply C13_terminates; [| |assumption].
+  - intros t z f. apply bres_of_no_crash.
+  - intros d t e z f. cbn [fst C03Inst.blocksW_pipe]. apply bres_of_no_crash.
+Qed.
+Print Assumptions C13_terminates_pipe.
+
+Theorem C13_complete_entries_w_pipe :
+  forall (algo : N) (mb : nat) hash hlen bdec (o : option byte) fast (mu : nat -> nat -> nat),
+  (forall s c, 1 <= mu s c) -> (forall s c, 1 <= hlen + (mb - mu s c)) ->
+  let blocksW := C03Inst.blocksW_pipe algo mb hash hlen bdec o fast mu in
+  let inside := PipelineLocal.inside_pipe mb hlen mu in
+  forall marker delim ignore_size look intra window, marker <> [] ->
+  forall db c i s e, c <= length db ->
+  nth_error (entries_spec marker db) i = Some (s, e) -> e + length marker <= c ->
+  intact_w delim ignore_size look intra window inside (sub db s e) ->
+  let rw := results_w marker delim ignore_size look intra window blocksW in
+  exists r, nth_error (rw db) i = Some r /\ nth_error (rw (firstn c db)) i = Some r.
+Proof.
+  intros algo mb hash hlen bdec o fast mu MP TP blocksW inside marker delim ignore_size look intra window Hm.
+  apply (C13_complete_entries_w marker delim ignore_size look intra window blocksW inside Hm).
+  intros db1 t1 e1 db2 t2 e2 tr sz file S1 S2 I.
+  exact (PipelineLocal.blocksW_pipe_local algo mb hash hlen bdec o fast mu MP TP db1 t1 e1 db2 t2 e2 tr sz file S1 S2 I).
+Qed.
+Print Assumptions C13_complete_entries_w_pipe.
